@@ -31,7 +31,7 @@ def decl_node(dev: str, **over):
     for fname, ann, d in fields[cname]:
         if fname == "name":
             kw[fname] = "dev"
-        elif d[0] == "required":
+        elif d[0] == "required" or fname == "pin":
             kw[fname] = {"pin": 7, "red_pin": 3, "green_pin": 5, "blue_pin": 6, "in1": 2, "in2": 4, "enable": 9, "trig": 10, "echo": 11,
                          "cols": 16, "rows": 2}.get(fname, 7)
             if cname == "PotentiometerDecl":
